@@ -69,6 +69,7 @@ pub fn profile(family: &str) -> Profile {
     match family {
         "mailbox" => Profile { name: "mailbox", timers_pm: 150, ..b },
         "backpressure" => Profile {
+            entries: &[Entry::Builder],
             name: "backpressure",
             unbounded_w: 10,
             max_bound: 4,
